@@ -5,6 +5,8 @@ from common import Fr, enc_q, dec_q, close, rng
 import gmgen
 
 LEAN_MODULE = 'PGM.Properties.C02'
+LEAN_EXTRA = ['PGM.Properties.C02G']
+TRANSLATORS = ('py2gm', 'py2gmq')   # project (cached / uncached), krondot of graphical_model.py -> Generated/GraphicalModelQG.lean (imports GraphicalModelG.lean)
 TRUSTED = ['Lean 4.33 kernel', 'axioms: propext, Classical.choice, Quot.sound',
            'hand model PGM/Model/GM.lean (variable elimination in both spaces, project, krondot, calculate_many_marginals, datavector) tied to src/mbi/graphical_model.py by this correspondence run',
            'networkx floyd_warshall_predecessor_and_distance modelled by its contract on trees (BFS predecessor table)',
